@@ -2,8 +2,8 @@
    Proved: the coordinate map, the coding/intergenic partition, the intergenic SNP rule, the codon loop as a function
    of the feature's codons (which codon yields an aa: record, with which residue, alleles, feature and SNP list), the
    dictionary product = the standard genetic code, what the merged and the final list mention (none invented, none
-   dropped).  PARTIAL: the aa: statement is proved per feature (getAAsPair); the final-list completeness needs pairwise distinct
-   feature names (or the weaker aa_uniq side condition); GenBank /translation text is an input. *)
+   dropped).  The aa: records of the final list are exactly those of the features' codon loops (C04_aa_final_exact with
+   C04_aa_records_exact); the final-list completeness of mentioned positions needs pairwise distinct feature names; GenBank /translation text is an input. *)
 From Coq Require Import Floats.SpecFloat.
 From GF Require Import Base Alphabet Symbols FastaModel Float TopK CodonModel Indels VariantsModel VariantsProofs AaProofs AaUniq.
 Open Scope N_scope.
@@ -129,3 +129,11 @@ Theorem C04_reference_residues_are_code : forall nuc tr, Forall (fun c => In c i
     forall k a b c, nth_error cs k = Some (a, b, c) -> exists v, unique_product a b c = Some v /\ nth_error tr k = Some v.
 Proof. exact reference_residues_are_code. Qed.
 Print Assumptions C04_reference_residues_are_code.
+
+(* aa: records of the FINAL list (after merge, stable sort and duplicate removal): exactly those the codon loops of the
+   annotation's features emit - none invented, none lost (a dropped duplicate has an equal record kept) *)
+Theorem C04_aa_final_exact : forall ref que gs inter out, variants_pair_traced ref que gs inter = Ok out ->
+  forall v, v_kind v = KAA ->
+  (In v (map fst out) <-> exists g l, In g gs /\ get_aas_traced ref que (ref_to_msa ref) g = Ok l /\ In v (map fst l)).
+Proof. exact aa_final_exact. Qed.
+Print Assumptions C04_aa_final_exact.
